@@ -153,6 +153,23 @@ func genC07(t *rapid.T) c07Case {
 			Message: pick(t, []string{"", "plain", "value {{ex.p0}}", "{{ex.p0}} and again {{ex.p0}}", "{{ex.p0}} {{ex.p1}} {{ ex.p0 }} {{ex.p-1}} {{ex.p_1}}",
 				"{{ex.a}}{{ex.b}}{{ex.c}}{{ex.d}}{{ex.e}}{{ex.f}}{{ex.g}}{{ex.h}}{{ex.i}}{{ex.j}}{{ex.k}}{{ex.l}}", "{{shapes.name}} {{core.name}}"}, "msg")})
 	}
+	// level lists: a validation may be listed under a second level (also as that level's only entry), names may be
+	// listed without a definition, a level may be an empty list
+	if rapid.IntRange(0, 2).Draw(t, "levelGames") == 0 {
+		p.Undefined = map[string][]string{}
+		for _, v := range p.Validations {
+			if rapid.IntRange(0, 2).Draw(t, "alsoListed") == 0 {
+				other := pick(t, []string{"violation", "warning", "info"}, "otherLevel")
+				if other != v.Level {
+					p.Undefined[other] = append(p.Undefined[other], v.Name)
+				}
+			}
+		}
+		if rapid.IntRange(0, 3).Draw(t, "emptyLevel") == 0 {
+			p.EmptyLevels = append(p.EmptyLevels, pick(t, []string{"violation", "warning", "info"}, "emptyLevelName"))
+		}
+		decorateLevelLists(t, p)
+	}
 	// numbers in any of the spellings YAML gives them (+5, 0x5, 0o5, .5, 5e-1, 5.e-1, 00.5 ...)
 	c.ProfileText = p.ToY().Print(m.YOpts{NumStyle: rapid.SampledFrom([]int{0, 0, 1, 2, 3, 4, 5, 6, 7}).Draw(t, "numStyle")})
 	return c
